@@ -148,13 +148,35 @@ pub fn check_iup(ctx: &mut Ctx, case: &IupCase, origin: &str) -> Option<Vec<Glyp
             worst = err_sq;
         }
         if err_sq > allowed_sq {
+            // Diagnose: would inference from the *unrounded* neighbours (the
+            // values the optimiser reasoned about) have been within the
+            // tolerance? Then the miss is caused by rounding the retained
+            // deltas after the decision was taken (possible only for
+            // non-integer input): two neighbours with equal coordinate whose
+            // deltas differ before but coincide after rounding (or vice
+            // versa) flip the "same coordinate" rule of the spec.
+            let unrounded: Vec<Option<(Frac, Frac)>> = out
+                .iter()
+                .enumerate()
+                .map(|(k, d)| d.required.then(|| (Frac::new(case.deltas_q[k].0 as i128, 4), Frac::new(case.deltas_q[k].1 as i128, 4))))
+                .collect();
+            let inf_u = infer::<Frac>(&case.coords, &all_ends, &unrounded);
+            let ux = inf_u[i].0 - Frac::new(case.deltas_q[i].0 as i128, 4);
+            let uy = inf_u[i].1 - Frac::new(case.deltas_q[i].1 as i128, 4);
+            let unrounded_ok = (ux * ux + uy * uy).to_f64() <= case.tol * case.tol + 1e-9;
+            let sig = if fractional && unrounded_ok {
+                "iup:optional-exceeds-tolerance-after-rounding:fractional-input:same-coordinate-neighbours".to_string()
+            } else {
+                format!("iup:optional-exceeds-tolerance:{}:{:016x}", origin, case.digest())
+            };
             ctx.violation(
-                &format!("iup:optional-exceeds-tolerance:{}:{:016x}", origin, case.digest()),
+                &sig,
                 json!({"what": "delta marked optional but spec inference from the retained neighbours misses it by more than the tolerance (euclidean, as documented in can_iup_in_between)",
                        "index": i, "inferred": [inferred[i].0.to_f64(), inferred[i].1.to_f64()],
+                       "inferred_from_unrounded_neighbours": [inf_u[i].0.to_f64(), inf_u[i].1.to_f64()],
                        "input_delta": [case.deltas_q[i].0 as f64 / 4.0, case.deltas_q[i].1 as f64 / 4.0],
                        "error": err_sq.sqrt(), "allowed": allowed, "fractional_input": fractional,
-                       "flags_required": out.iter().map(|d| d.required as u8).collect::<Vec<_>>().iter().take(64).collect::<Vec<_>>(),
+                       "flags_required": out.iter().take(64).map(|d| d.required as u8).collect::<Vec<_>>(),
                        "case": case.to_json()}),
                 None,
             );
